@@ -1,6 +1,6 @@
 """C07 — ASN.1 DER primitives: minimal encoding, exact decoding, exact consumption."""
 from __future__ import annotations
-import prelude
+import prelude, der
 from check import canon_exc, hx
 
 MANIFEST = {
@@ -280,7 +280,7 @@ def run(ctx):
     oids = ["1.2.840.113549.1.7.3", "1.3.6.1.4.1.311.74.1", "2.16.840.1.101.3.4.1.45", "0.0", "0.39", "1.0", "2.39", "2.5.4.3",
             "1.2.0.127.128.16383.16384", "2.40", "3.1", "1.40", "1.2." + str(1 << 70)]
     for _ in range(600 if not ctx.thorough else 6000):
-        arcs = [rng.randrange(0, 3), rng.randrange(0, 40)] + [rng.choice([0, 1, 127, 128, rng.randrange(1 << rng.randrange(1, 80))]) for _ in range(rng.randrange(0, 8))]
+        arcs = [rng.randrange(0, 3), rng.randrange(0, 40)] + [rng.choice([0, 1, 127, 128, 16383, 16384, (1 << 21) - 1, 1 << 21, (1 << (7 * rng.randrange(1, 12))) - rng.randrange(0, 2), rng.randrange(1 << rng.randrange(1, 80))]) for _ in range(rng.randrange(0, 8))]
         oids.append(".".join(map(str, arcs)))
     for o in oids:
         r = call(a._pack_asn1_object_identifier, o, fmt=hx)
@@ -293,6 +293,9 @@ def run(ctx):
             first = int(o.split(".")[0])
             if first <= 2 and rr != f"ok {o} {len(enc)}":
                 ctx.violation("OID does not round-trip", {"oid": o}, rr, f"ok {o} {len(enc)}")
+            # the unique minimal DER encoding (X.690 8.19: each arc in the fewest base-128 octets), from the independent encoder
+            if first <= 2 and (first == 2 or int(o.split(".")[1]) < 40) and enc != der.enc_oid(o):
+                ctx.violation("OBJECT IDENTIFIER encoding is not the minimal DER encoding", {"oid": o}, hx(enc), hx(der.enc_oid(o)))
 
     # --- booleans, utf8 -----------------------------------------------------------------------
     for v in (False, True):
